@@ -40,38 +40,33 @@ class Interpreter:
         return self.interpret(contents, os.path.basename(filename))
 
     def interpret(self, script, filename, environment=None):
-        savedParent = None
         if environment is None:
             env = self.environment
         else:
-            environment_ = environment
-            while environment_ and environment_.parent:
-                environment_ = environment_.parent
-            if environment_:
-                savedParent = environment_.parent
-                environment_.withParent(self.environment)
+            root = environment
+            while root.parent:
+                root = root.parent
+            if root is not self.base_environment:
+                if "checkerlang_secure_mode" in root.map:
+                    raise CklRuntimeError(
+                        ValueString("ERROR"),
+                        "Environment belongs to another interpreter"
+                    )
+                root.withParent(self.environment)
             env = environment
-        try:
-            result = parse_script(script, filename).evaluate(env)
-            if result.isReturn():
-                return result.value
-            elif result.isBreak():
-                raise CklRuntimeError(
-                    ValueString("ERROR"),
-                    "Cannot use break without surrounding loop",
-                    result.asBreak().pos
-                )
-            elif result.isContinue():
-                raise CklRuntimeError(
-                    ValueString("ERROR"),
-                    "Cannot use continue without surrounding loop",
-                    result.asContinue().pos
-                )
-            return result
-        finally:
-            if savedParent:
-                environment_ = environment
-                while environment_ and environment_.parent:
-                    environment_ = environment_.parent
-                if environment_:
-                    environment_.withParent(savedParent)
+        result = parse_script(script, filename).evaluate(env)
+        if result.isReturn():
+            return result.value
+        elif result.isBreak():
+            raise CklRuntimeError(
+                ValueString("ERROR"),
+                "Cannot use break without surrounding loop",
+                result.asBreak().pos
+            )
+        elif result.isContinue():
+            raise CklRuntimeError(
+                ValueString("ERROR"),
+                "Cannot use continue without surrounding loop",
+                result.asContinue().pos
+            )
+        return result
